@@ -1,11 +1,13 @@
-"""C19 -- command line exit-code/output contract: bounded contract check of cli.main over generated file sets (nothing proved)."""
+"""C19 -- command line contract.  Proved (one fragment): get_input_string strips exactly one trailing line break of an
+input file.  Bounded: exit codes / outputs of cli.main over generated file sets."""
 from vlib.harness import proved_tier
 from checks import bounded_C19
 
-LEVEL = "exploration"
+LEVEL = "other"
 
 
 def run(rep, tier, seed):
+    proved_tier(rep, "C19", seed, expected_min_obligations=1)
     bounded_C19.run(rep, tier, seed)
 
 
